@@ -49,18 +49,27 @@ pub struct GraphCase {
     pub shaped: bool,
     /// every file also runs `cat big.txt` (100 KB, more than a pipe buffer) after its dependency directives
     pub big: bool,
+    /// file names contain a blank (`f1 s.txt`): include / after arguments with inner whitespace;
+    /// commands quote the path
+    pub spaced: bool,
+    /// sources end with their last directive (no tail text line): the directive pending at end of
+    /// file is the last dependency edge (or the marker command)
+    pub no_tail: bool,
+    /// the stale file at every output path is the *fresh* content followed by extra lines (a
+    /// comparison that only looks at a prefix would call it up to date)
+    pub stale_ext: bool,
 }
 
 impl GraphCase {
     pub fn new(n: usize, mask: u64) -> Self {
-        Self { n, mask, kinds: 0, requested: (0..n).collect(), input_style: 0, threads: 2, stale: true, dup_edges: false, markers: true, obs: false, mode: Mode::Build, subdirs: false, fail_at: None, fail_kind: 0, after_only: false, vanish: false, slow_ms: 0, shaped: false, big: false }
+        Self { n, mask, kinds: 0, requested: (0..n).collect(), input_style: 0, threads: 2, stale: true, dup_edges: false, markers: true, obs: false, mode: Mode::Build, subdirs: false, fail_at: None, fail_kind: 0, after_only: false, vanish: false, slow_ms: 0, shaped: false, big: false, spaced: false, no_tail: false, stale_ext: false }
     }
     pub fn graph(&self) -> Graph {
         Graph::from_mask(self.n, self.mask, self.kinds)
     }
     pub fn to_json(&self, spec: &Spec) -> Value {
         json!({"kind": "graph", "n": self.n, "mask": self.mask, "kinds": self.kinds, "requested": self.requested, "input_style": self.input_style, "threads": self.threads,
-            "stale": self.stale, "dup_edges": self.dup_edges, "markers": self.markers, "obs": self.obs, "mode": mode_name(&self.mode), "subdirs": self.subdirs, "fail_at": self.fail_at, "fail_kind": self.fail_kind, "after_only": self.after_only, "vanish": self.vanish, "slow_ms": self.slow_ms, "shaped": self.shaped, "big": self.big,
+            "stale": self.stale, "dup_edges": self.dup_edges, "markers": self.markers, "obs": self.obs, "mode": mode_name(&self.mode), "subdirs": self.subdirs, "fail_at": self.fail_at, "fail_kind": self.fail_kind, "after_only": self.after_only, "vanish": self.vanish, "slow_ms": self.slow_ms, "shaped": self.shaped, "big": self.big, "spaced": self.spaced, "no_tail": self.no_tail, "stale_ext": self.stale_ext,
             "edges": self.graph().edges.iter().enumerate().map(|(i, e)| format!("f{i} -> {:?}", e.iter().map(|(j, k)| format!("f{j}{}", if *k == EdgeKind::AfterCat { "(after+cat)" } else { "" })).collect::<Vec<_>>())).collect::<Vec<_>>(),
             "schedule": spec_json(spec)})
     }
@@ -86,12 +95,15 @@ impl GraphCase {
                 slow_ms: v["slow_ms"].as_u64().unwrap_or(0) as u32,
                 shaped: v["shaped"].as_bool().unwrap_or(false),
                 big: v["big"].as_bool().unwrap_or(false),
+                spaced: v["spaced"].as_bool().unwrap_or(false),
+                no_tail: v["no_tail"].as_bool().unwrap_or(false),
+                stale_ext: v["stale_ext"].as_bool().unwrap_or(false),
             },
             spec_from_json(&v["schedule"]),
         )
     }
     pub fn hash(&self) -> u64 {
-        crate::util::hash_str(&format!("{:?}", (self.n, self.mask, self.kinds, &self.requested, self.input_style, self.threads, self.stale, self.dup_edges, self.subdirs, mode_name(&self.mode), (self.fail_at, self.fail_kind, self.after_only, self.vanish, self.shaped, self.big))))
+        crate::util::hash_str(&format!("{:?}", (self.n, self.mask, self.kinds, &self.requested, self.input_style, self.threads, self.stale, self.dup_edges, self.subdirs, mode_name(&self.mode), (self.fail_at, self.fail_kind, self.after_only, self.vanish, self.shaped, self.big), (self.spaced, self.no_tail, self.stale_ext))))
     }
     fn dir_of(&self, i: usize) -> &'static str {
         if self.subdirs && i % 2 == 1 {
@@ -101,8 +113,11 @@ impl GraphCase {
         }
     }
     fn file_name(&self, i: usize) -> String {
+        let sp = if self.spaced { " s" } else { "" };
         if self.shaped && i % 2 == 1 {
-            format!("f{i}.v2.txt")
+            format!("f{i}{sp}.v2.txt")
+        } else if self.spaced {
+            format!("f{i}{sp}.txt")
         } else {
             graph_name(i)
         }
@@ -119,7 +134,8 @@ impl GraphCase {
     /// source path of vertex i
     fn src_of(&self, i: usize) -> String {
         let d = self.dir_of(i);
-        let name = if self.shaped && i % 2 == 1 { format!("f{i}.v2.txtpp.txt") } else { format!("{}.txtpp", graph_name(i)) };
+        let sp = if self.spaced { " s" } else { "" };
+        let name = if self.shaped && i % 2 == 1 { format!("f{i}{sp}.v2.txtpp.txt") } else { format!("{}.txtpp", self.file_name(i)) };
         if d.is_empty() {
             name
         } else {
@@ -159,7 +175,7 @@ pub struct GraphRun {
 fn build_files(case: &GraphCase, generation: u32, marker_log: Option<&str>, obs_log: Option<&str>) -> Files {
     let g = case.graph();
     let flat = graph_files(&g, generation, 0xabc0 + case.mask, if case.markers { marker_log } else { None }, if case.obs { obs_log } else { None }, case.dup_edges);
-    if !case.subdirs && case.fail_at.is_none() && !case.after_only && !case.vanish && case.slow_ms == 0 && !case.shaped && !case.big {
+    if !case.subdirs && case.fail_at.is_none() && !case.after_only && !case.vanish && case.slow_ms == 0 && !case.shaped && !case.big && !case.spaced && !case.no_tail {
         return flat;
     }
     // re-home odd files into d/ and rewrite references accordingly; inject the failing command
@@ -169,7 +185,10 @@ fn build_files(case: &GraphCase, generation: u32, marker_log: Option<&str>, obs_
         let mut out = String::new();
         for line in src.lines() {
             let mut l = line.to_string();
-            if case.subdirs || case.shaped {
+            if case.no_tail && l.contains(":tail:") {
+                continue;
+            }
+            if case.subdirs || case.shaped || case.spaced {
                 for j in 0..case.n {
                     let name = graph_name(j);
                     let file = case.file_name(j);
@@ -181,7 +200,9 @@ fn build_files(case: &GraphCase, generation: u32, marker_log: Option<&str>, obs_
                     if rel != name {
                         for pat in [format!("include {name}"), format!("include ./{name}"), format!("after {name}"), format!("cat {name}"), format!("< {name})")] {
                             if l.contains(&pat) {
-                                l = l.replace(&pat, &pat.replace(&name, &rel));
+                                let quoted = case.spaced && (pat.starts_with("cat ") || pat.starts_with("< "));
+                                let with = if quoted { format!("'{rel}'") } else { rel.clone() };
+                                l = l.replace(&pat, &pat.replace(&name, &with));
                             }
                         }
                     }
@@ -309,9 +330,10 @@ pub fn exec(ctx: &mut Ctx, case: &GraphCase, spec: Spec, log_events: bool) -> Gr
         let old_expect = model::evaluate(&old, &root.to_string_lossy(), true, &(0..case.n).map(|i| case.src_of(i)).collect::<Vec<_>>());
         for i in 0..case.n {
             let p = case.path_of(i);
-            let bytes = match old_expect.built.outputs.get(&p) {
-                Some(v) => v[0].clone().into_bytes(),
-                None => format!("{}:stale:g0\n", graph_name(i)).into_bytes(),
+            let bytes = match (case.stale_ext, expect.built.outputs.get(&p), old_expect.built.outputs.get(&p)) {
+                (true, Some(fresh), _) => format!("{}{}:stale-extension:g0\nmore\n", fresh[0], graph_name(i)).into_bytes(),
+                (_, _, Some(v)) => v[0].clone().into_bytes(),
+                _ => format!("{}:stale:g0\n", graph_name(i)).into_bytes(),
             };
             let _ = std::fs::write(root.join(&p), bytes);
         }
@@ -514,6 +536,7 @@ pub fn account(ctx: &mut Ctx, run: &GraphRun) {
     }
     ctx.max("max_tasks_parked_at_gates", t.max_parked as u64);
     ctx.count("early_polls", t.early_polls as u64);
+    ctx.count("receive_steps_conceded_to_a_blocked_send", t.forced_recvs as u64);
     if t.deadlock {
         ctx.count("deadlocks", 1);
     }
